@@ -41,6 +41,8 @@ def run(facts, rep, tier):
     rep.rule('LO.2', 'at every return that is not the fallback, languageCode, country and countryCode are definitely assigned from a table entry and a language was matched (witness: the languages list '
                      'is non-empty, it is appended to exactly where languageCode is set); no field is read before it is assigned; the fallback assigns all five fields including error')
     rep.rule('LO.3', 'provenance: every pointer stored in the result is .code/.value of a table entry under the loop variable, or a fallback literal that itself occurs in the tables (English/en, United Kingdom/GB)')
+    rep.rule('LO.5', 'selection: a table entry is chosen only by whole-string equality with the part (strcmp == 0, std::string / string_view ==, or strncmp / memcmp over n bytes together with a test that the entry '
+                     'ends there); a bare strncmp(entry, part, n) == 0 also accepts every proper prefix of an entry and the empty part')
     rep.rule('LO.4', 'tables: the counts are the array sizes; no null members')
     rep.assume('strstr/strlen/strcmp/memcpy contracts of libc; the input is a NUL-terminated string')
     f = facts.fn(f'{LI}::get')
@@ -128,6 +130,43 @@ def run(facts, rep, tier):
     def res_field(n):
         return n.name if (n.k == 'member' and n.field and n.n('base') is not None and guards.strip_casts(n.n('base')).k == 'ref' and guards.strip_casts(n.n('base')).decl == R) else None
 
+    # the result object handed to a helper by reference: the helper may assign any field (the must-assigned analysis stops being exact)
+    escapes = [n for n in f.nodes() if n.k == 'call' and n.callee_in_root and n.ck != 'op' and any(a is not None and guards.strip_casts(a).k == 'ref' and guards.strip_casts(a).decl == R for a in n.ns('args'))]
+    def fallback_by_ref(call):
+        """helper(result, …) that turns the object it receives by reference into the documented fallback unconditionally: every pointer
+        field and `error` assigned a literal, one literal language appended, the literals being table entries.
+        Returns (helper, resets_first) or None"""
+        for g in facts.resolve(call):
+            if not g.file.endswith('LocaleInfo.cpp') or g.cfg is None: continue
+            ai = next((i for i, a in enumerate(call.ns('args')) if a is not None and guards.strip_casts(a).k == 'ref' and guards.strip_casts(a).decl == R), None)
+            if ai is None or ai >= len(g.d['params']): continue
+            prm = g.d['params'][ai]
+            if not prm.get('isref') or prm['ctype'].startswith('const') or 'LocaleInfo::Info' not in prm['ctype']: continue
+            R2 = prm['decl']
+            on_param = lambda m: m is not None and m.k == 'member' and m.n('base') is not None and guards.strip_casts(m.n('base')).k == 'ref' and guards.strip_casts(m.n('base')).decl == R2
+            asg = {}
+            for n in g.nodes():
+                if n.k == 'binop' and n.op == '=' and on_param(n.n('lhs')):
+                    v = guards.strip_casts(n.n('rhs')); pos = g.cfg.position(n)
+                    if pos is None or pos[0] not in g.cfg.pdom.get(g.cfg.entry, ()): continue
+                    if v is not None and v.k == 'str': asg[n.n('lhs').name] = v.v
+                    elif n.n('lhs').name == 'error': asg['error'] = '<expr>'
+            app = [n for n in g.nodes() if n.k == 'call' and n.callee_base() in ('emplace_back', 'push_back') and on_param(n.n('object')) and n.n('object').name == 'languages']
+            lname = None
+            if len(app) == 1 and app[0].ns('args') and app[0].ns('args')[0] is not None:
+                x = guards.strip_casts(app[0].ns('args')[0]); lname = x.v if x.k == 'str' else None
+            if not (set(required) | {'error'} <= set(asg) and table_has(facts, 'languageInfo', lname, asg.get('languageCode')) and table_has(facts, 'countryInfo', asg.get('country'), asg.get('countryCode'))): continue
+            resets = [n for n in g.nodes() if (n.k == 'call' and n.ck == 'op' and n.op == '=' and n.ns('args') and n.ns('args')[0] is not None and guards.strip_casts(n.ns('args')[0]).k == 'ref' and guards.strip_casts(n.ns('args')[0]).decl == R2)
+                      or (n.k == 'call' and n.callee_base() == 'clear' and on_param(n.n('object')) and n.n('object').name == 'languages')]
+            first = bool(resets) and all(g.cfg.dominates(resets[0], a_) for a_ in app)
+            return g, first
+        return None
+
+    # escapes into a by-reference fallback helper are followed: the helper assigns every field; what matters is whether the object is clean
+    BYREF = {}
+    for c_ in list(escapes):
+        fb = fallback_by_ref(c_)
+        if fb is not None: BYREF[c_.id] = (c_,) + fb; escapes.remove(c_)
     # per CFG element: gen sets
     def gen_of(node):
         if node.k == 'binop' and node.op == '=':
@@ -136,6 +175,7 @@ def run(facts, rep, tier):
         if node.k == 'call' and node.ck == 'op' and node.op == '=' and node.ns('args') and node.ns('args')[0] is not None:
             a0 = guards.strip_casts(node.ns('args')[0])
             if a0.k == 'ref' and a0.decl == R: return set(ptr_fields) | {'@reset'}       # result = {} : value-initialises every member
+        if node.k == 'call' and node.id in BYREF: return set(ptr_fields) | ({'@reset'} if BYREF[node.id][2] else set()) | {'@fallback'}
         return set()
     # must-assigned forward dataflow
     order = cfg.rpo()
@@ -152,7 +192,7 @@ def run(facts, rep, tier):
                 inn = set.intersection(*ps)
             cur = set(inn)
             for e in cfg.blocks[b].elems:
-                if e.node is not None: cur |= gen_of(e.node) - {'@reset'}
+                if e.node is not None: cur |= gen_of(e.node) - {'@reset', '@fallback'}
             if IN.get(b) != inn or OUT.get(b) != cur:
                 IN[b] = inn; OUT[b] = cur; changed = True
 
@@ -161,10 +201,8 @@ def run(facts, rep, tier):
         if pos is None: return set()
         cur = set(IN.get(pos[0], set()))
         for e in cfg.blocks[pos[0]].elems[:pos[1]]:
-            if e.node is not None: cur |= gen_of(e.node) - {'@reset'}
+            if e.node is not None: cur |= gen_of(e.node) - {'@reset', '@fallback'}
         return cur
-    # the result object handed to a helper by reference: the helper may assign any field (the must-assigned analysis stops being exact)
-    escapes = [n for n in f.nodes() if n.k == 'call' and n.callee_in_root and n.ck != 'op' and any(a is not None and guards.strip_casts(a).k == 'ref' and guards.strip_casts(a).decl == R for a in n.ns('args'))]
     foreign_returns = [n for n in f.nodes() if n.k == 'return' and n.n('sub') is not None and not any(x.k == 'ref' and x.decl == R for x in n.n('sub').walk())]
 
     def fallback_helper(ret):
@@ -228,6 +266,17 @@ def run(facts, rep, tier):
         asg = assigned_at(r)
         known = guards.known_at(f, r)
         # fallback = dominated by a reset of the whole object
+        via = [v_ for v_ in BYREF.values() if cfg.dominates(v_[0], r)]
+        if via:
+            c_, g_, helper_resets = via[-1]
+            nfall += 1
+            own_resets = [n for n in f.nodes() if '@reset' in gen_of(n) and n.id not in BYREF and cfg.dominates(n, c_)]
+            dirty = [ap for ap in appends if cfg.reaches(ap, c_) and not any(cfg.reaches(ap, x) and cfg.reaches(x, c_) and cfg.dominates(x, c_) for x in own_resets)]
+            clean = helper_resets or not dirty
+            rep.check(clean, 'LO.2', f'fallback return through {g_.name.split("::")[-1]}(result, …): the helper assigns languageCode, country, countryCode and error from table literals, on an object that holds nothing from the failed lookup', r.shortloc(),
+                      f'{g_.name.split("::")[-1]}() appends the fallback language to whatever the failed lookup left behind: neither it nor get() resets the result after the append at {dirty[0].shortloc() if dirty else "?"} (a known language with an unknown country returns that language\'s names *and* "English" under the code "en")',
+                      key='LO.2|fallback-dirty', fn=f.name)
+            continue
         resets = [n for n in f.nodes() if '@reset' in gen_of(n) and cfg.dominates(n, r)]
         if resets:
             nfall += 1
@@ -262,6 +311,7 @@ def run(facts, rep, tier):
                   f'{missing} may be unassigned at this return: for an unknown language with a known country the caller receives an indeterminate pointer and no error', key=f'LO.2|return|{",".join(missing)}', fn=f.name)
     nfall += n_helper_fallbacks
     if nfall >= 1 or exact: rep.check(nfall >= 1, 'LO.2', 'a fallback return exists', f.shortloc(), 'no fallback path', key='LO.2|nofallback', fn=f.name)
+    _selection_rules(facts, rep, f)
     # LO.3: table provenance of the non-fallback assignments
     loops = [n for n in f.nodes() if n.k == 'rangefor']
     loopvars = {l.var['decl']: (l.n('range').qname or l.n('range').name if l.n('range') is not None and l.n('range').k == 'ref' else None) for l in loops}
@@ -390,3 +440,141 @@ def _unchanged(f, guard, use, expr):
         if tgt is not None and tgt.decl in vs:
             if f.cfg.reaches(guard, n) and f.cfg.reaches(n, use): return False
     return True
+
+
+def _selection_rules(facts, rep, f):
+    """LO.5: classify every branch condition of get() that looks at a table entry (`x.code` / `x.value` of a loop variable over the tables)"""
+    sc = guards.strip_casts
+    loopvars = {l.var['decl'] for l in f.nodes() if l.k == 'rangefor' and l.var}
+    for l in f.nodes():
+        if l.k == 'for' and l.n('init') is not None and l.n('init').k == 'decl':
+            for v in l.n('init').vars: loopvars.add(v['decl'])
+
+    def strip(x):
+        while x is not None and x.k in ('cast', 'paren', 'materialize', 'bindtemp') and x.n('sub') is not None: x = x.n('sub')
+        return x
+
+    def mentions_entry(x, entryp):
+        return any(entryp(y) for y in x.walk())
+
+    def is_zero(x):
+        x = strip(x)
+        return x is not None and x.k in ('int', 'char') and x.v == 0
+
+    def classify(e, fn, entryp, depth=0):
+        """('eq',) | ('prefix', x, n, site) | ('term', x, n) | ('other',) | ('unknown', why)"""
+        e = strip(e)
+        if e is None or depth > 6: return ('unknown', 'expression too deep')
+        if not mentions_entry(e, entryp) and not (e.k == 'call' and e.callee_in_root): return ('other',)
+        if e.k == 'binop' and e.op in ('&&', '||'):
+            parts = []
+            def flat(x):
+                x = strip(x)
+                if x is not None and x.k == 'binop' and x.op == e.op: flat(x.n('lhs')); flat(x.n('rhs'))
+                else: parts.append(classify(x, fn, entryp, depth + 1))
+            flat(e)
+            rel = [p_ for p_ in parts if p_[0] != 'other']
+            if not rel: return ('other',)
+            if e.op == '||':
+                for p_ in rel:
+                    if p_[0] == 'prefix': return p_
+                if any(p_[0] in ('unknown', 'term') for p_ in rel): return ('unknown', 'a disjunct is not a recognised comparison')
+                return ('eq',)
+            if any(p_[0] == 'eq' for p_ in rel): return ('eq',)
+            pre = [p_ for p_ in rel if p_[0] == 'prefix']; terms = [p_ for p_ in rel if p_[0] == 'term']
+            if pre:
+                if all(any(guards.same_expr(t_[1], p_[1]) and guards.same_expr(t_[2], p_[2]) for t_ in terms) for p_ in pre): return ('eq',)
+                if any(p_[0] == 'unknown' for p_ in rel) or terms: return ('unknown', 'strncmp next to a test that is not recognised as the end-of-entry test')
+                return pre[0]
+            return ('unknown', 'no comparison recognised in the conjunction')
+        if e.k == 'unop' and e.op == '!':
+            sub = strip(e.n('sub'))
+            if sub is not None and sub.k == 'call' and (sub.calleeq or '').split('::')[-1] in ('strcmp', 'strncmp', 'memcmp', 'strcoll'):
+                return cmp_call(sub, fn)
+            if sub is not None and sub.k == 'subscript': return ('term', sub.n('base'), sub.n('idx'))
+            return ('unknown', 'negated condition')
+        if e.k == 'binop' and e.op == '==':
+            l, r = strip(e.n('lhs')), strip(e.n('rhs'))
+            if is_zero(l): l, r = r, l
+            if is_zero(r) and l is not None:
+                if l.k == 'call' and (l.calleeq or '').split('::')[-1] in ('strcmp', 'strncmp', 'memcmp', 'strcoll'): return cmp_call(l, fn)
+                if l.k == 'subscript': return ('term', l.n('base'), l.n('idx'))
+                if l.k == 'call' and l.callee_base() == 'compare' and (l.mclass or '').startswith(('std::basic_string', 'std::basic_string_view')): return ('eq',)
+            for a_, b_ in ((l, r), (r, l)):
+                if a_ is not None and a_.k == 'call' and (a_.calleeq or '').split('::')[-1] == 'strlen' and a_.ns('args'): return ('term', a_.ns('args')[0], b_)
+            return ('unknown', f'`{e.text()[:50]}`')
+        if e.k == 'call':
+            q = e.calleeq or ''
+            if e.ck == 'op' and e.op in ('==',) and ('basic_string' in q or 'basic_string_view' in q or any('basic_string' in (a.d.get('type') or '') for a in e.ns('args') if a is not None)): return ('eq',)
+            if q.startswith('std::operator==') : return ('eq',)
+            if e.callee_in_root:
+                ts = [t for t in facts.resolve(e) if t.cfg is not None]
+                if len(ts) == 1:
+                    g = ts[0]
+                    rets = [n for n in g.nodes() if n.k == 'return']
+                    if len(rets) == 1:
+                        val = rets[0].n('value') if rets[0].n('value') is not None else rets[0].n('sub')
+                        # which parameters receive a table entry?
+                        args = e.ns('args')
+                        prm = g.d['params']
+                        if e.ck == 'op' and len(args) == len(prm) + 1: args = args[1:]        # operator()(closure, args…)
+                        ent = {prm[i]['decl'] for i, a in enumerate(args) if a is not None and i < len(prm) and mentions_entry(a, entryp)}
+                        if e.n('object') is not None and e.ck != 'op' and mentions_entry(e.n('object'), entryp): return ('unknown', 'member function of the entry')
+                        if not ent: return ('other',)
+                        for i, a in enumerate(args):
+                            if a is not None and i < len(prm): ENV[prm[i]['decl']] = (a, fn)
+                        return classify(val, g, lambda y: y.k == 'ref' and y.decl in ent, depth + 1)
+                return ('unknown', f'{q.split("::")[-1]}() has several returns / is not resolved')
+            return ('unknown', f'{q}()')
+        if e.k == 'ref' and e.dk == 'local':
+            init = guards.single_assignment_init(fn, e.decl)
+            if init is not None: return classify(init, fn, entryp, depth + 1)
+        return ('unknown', f'`{e.text()[:50]}`')
+
+    ENV = {}          # parameter decl of a followed helper -> (argument expression, function it is written in)
+
+    def resolve_len(x, fn, depth=0):
+        """follow a length operand through helper parameters and single-assignment locals to the expression that computes it"""
+        x = strip(x)
+        while x is not None and depth < 8:
+            depth += 1
+            if x.k == 'ref' and x.decl in ENV: x, fn = ENV[x.decl]; x = strip(x); continue
+            if x.k == 'ref' and x.dk == 'local':
+                init = guards.single_assignment_init(fn, x.decl)
+                if init is None: break
+                x = strip(init); continue
+            break
+        return x
+
+    def cmp_call(c, fn):
+        b = (c.calleeq or '').split('::')[-1]
+        if b in ('strcmp', 'strcoll'): return ('eq',)
+        a = c.ns('args')
+        if len(a) != 3: return ('unknown', b)
+        ln = resolve_len(a[2], fn)
+        # the bare comparison is a prefix test only when the length is the length of the part (a pointer difference / strlen / size());
+        # a constant (sizeof of a zero-terminated buffer) or length + 1 compares the terminator too
+        is_len = ln is not None and ((ln.k == 'binop' and ln.op == '-' and all('*' in ((strip(o).d.get('type') or '')) for o in (ln.n('lhs'), ln.n('rhs')) if o is not None))
+                                     or (ln.k == 'call' and (ln.calleeq or '').split('::')[-1] in ('strlen', 'size', 'length')))
+        if not is_len: return ('unknown', f'{b}() over `{a[2].text()[:30]}` bytes: whether that covers the terminator is not followed')
+        return ('prefix', a[0], a[2], c.shortloc())
+
+    entryp = lambda y: y.k == 'member' and y.name in ('code', 'value') and y.n('base') is not None and strip(y.n('base')) is not None and strip(y.n('base')).k == 'ref' and strip(y.n('base')).decl in loopvars
+    n5 = 0; allok = True
+    for n in f.nodes():
+        if n.k not in ('if', 'while') or n.n('c') is None: continue
+        c = n.n('c')
+        if not mentions_entry(c, entryp): continue
+        v = classify(c, f, entryp)
+        if v[0] == 'other': continue
+        n5 += 1
+        inst = f'line {n.line - f.line:+d} of get(): `{c.text()[:70]}` selects by whole-string equality'
+        if v[0] == 'eq': rep.ok('LO.5', inst, n.shortloc())
+        elif v[0] == 'prefix':
+            allok = False
+            rep.violation('LO.5', inst, v[3], f'the entry is compared over the first `{v[2].text()[:30]}` bytes only, and nothing tests that it ends there: every part that is a proper prefix of a table string is accepted '
+                          '(`Eng_GB`, `e_GB`), the empty part matches every entry, and a name that is a prefix of an earlier one is mapped to it (`Malay` -> `Malayalam`) instead of the fallback / its own code', key='LO.5|prefix', fn=f.name)
+        else:
+            allok = False
+            rep.inconclusive('LO.5', inst, n.shortloc(), f'the comparison is not in a recognised form: {v[1] if len(v) > 1 else v[0]}')
+    if allok: rep.floor('selection conditions', n5, 3)
